@@ -40,7 +40,9 @@ var c15Placements = []string{"in-a-submodule", "direct", "grouping-local", "grou
 	// statements written in one module that land on a node defined in another one
 	"when-on-uses-of-foreign-grouping", "must-by-refine-of-foreign-grouping", "when-on-augment-of-other-module", "must-by-deviate-add-from-other-module",
 	// the same expression text written twice: in a grouping of the defining module and directly in the module that uses that grouping
-	"grouping-other-module-plus-own-copy"}
+	"grouping-other-module-plus-own-copy",
+	// copied twice: the grouping is used by a grouping of a second module, which a third module uses
+	"grouping-through-grouping-of-a-third-module"}
 var c15Stmts = []string{"must", "when", "path"}
 var c15PrefixUses = []string{"none", "own", "imported-by-definer-only", "imported-by-user-only", "same-prefix-different-modules", "undeclared", "same-prefix-in-included-submodule"}
 
@@ -259,6 +261,21 @@ func c15Build(placement, stmt, pu string, ex c15Expr, custom string) *c15Case {
 		def.Add(yang.S("grouping", "g", leaf))
 		imp(use, "c15-def", "d")
 		useTop.Add(yang.S("uses", "d:g"))
+	case "grouping-through-grouping-of-a-third-module":
+		// the module in the middle binds the prefixes of the case in its own way (or not at all): that says
+		// nothing about the statement, which is written in the defining module
+		def.Add(yang.S("grouping", "g", leaf))
+		mid := yang.S("module", "c15-mid", yang.S("namespace", "urn:verif:c15-mid"), yang.S("prefix", "m"), yang.S("import", "c15-def", yang.S("prefix", "dd")),
+			yang.S("grouping", "outer", yang.S("leaf", "mid-leaf", yang.S("type", "string")), yang.S("uses", "dd:g")))
+		switch pu {
+		case "imported-by-user-only":
+			imp(mid, "c15-x", "x")
+		case "same-prefix-different-modules":
+			imp(mid, "c15-y", "x")
+		}
+		imp(use, "c15-mid", "mm")
+		useTop.Add(yang.S("uses", "mm:outer"))
+		mods = append(mods, mid)
 	case "grouping-other-module-plus-own-copy":
 		def.Add(yang.S("grouping", "g", leaf))
 		imp(use, "c15-def", "d")
